@@ -165,7 +165,7 @@ def check_crawl(ctx, case):
     if case.get('robots') is not None:
         robots = {'replies': case['robots'], 'disallow': bool(case.get('robots_disallow'))}
     res = rc.run_crawl(case['url'], replies, tries, m, login=login, robots=robots,
-                       host_fail=case.get('host_fail'), retry=case.get('retry'))
+                       host_fail=case.get('host_fail'), retry=case.get('retry'), timeout=case.get('timeout', 20))
     real = ','.join('%d:%d:%s:%d' % (v['requests'], v['robots_requests'], v['status'], v['try_count']) for v in res['visits']) or '-'
     line = rc.session_line(res, m, True, [], login, 'GET', op='crawl', tries=tries)
     model = ctx.model.ask([line])[0]
@@ -175,9 +175,11 @@ def check_crawl(ctx, case):
         tags.append('crawl:host=%s,%s' % (case['host_fail'], case.get('retry') or 'no-retry-option'))
     ctx.case(('crawl', repr(case)), nontrivial=len(res['hops']) + len(res['rhops']) + res.get('attempts', 0) > 0, tags=tags)
     if res['hung'] or res['capped']:
-        ctx.fail('no-termination', 'Application.run', case,
-                 'the crawl did not end: %d check-outs of the URL with tries=%d (%d page requests, %d robots.txt requests so far); '
-                 'visits %s' % (res['checkouts'], tries, len(res['hops']), len(res['rhops']), real[:300]))
+        reqlog = ' '.join([h[2].split(b'\r\n')[0].decode('latin-1') for h in res['rhops'][-4:] + res['hops'][-6:]])
+        ctx.fail('crawl-never-ends', 'Application.run', case,
+                 'the crawl did not end (%s): %d check-outs of the URL with tries=%d, %d page requests, %d robots.txt requests so far; '
+                 'visits %s; last requests: %s' % ('check-out cap' if res['capped'] else 'blocked', res['checkouts'], tries,
+                                                  len(res['hops']), len(res['rhops']), real[:300], reqlog[:300]))
         return res
     if model != real:
         ctx.disagree('crawl', case, model, real)
@@ -206,6 +208,9 @@ def check_crawl(ctx, case):
         ctx.fail('check-in-count', 'ItemSession', case, '%d check-outs, %d check-ins' % (len(outs), len(ins)))
     if tries >= 1 and with_request > tries:
         ctx.fail('too-many-tries', 'TriesFilter', case, '%d visits issued requests with tries=%d' % (with_request, tries))
+    if tries >= 1 and case.get('always_fail') and with_request != tries:
+        ctx.fail('attempts-not-tries', 'WebProcessorSession', case,
+                 'a URL that always fails was attempted %d times with tries=%d (visits %s)' % (with_request, tries, real[:300]))
     if tries >= 1 and len(outs) > tries + 1:
         ctx.fail('too-many-visits', 'URLItemSource', case, '%d check-outs of the URL with tries=%d' % (len(outs), tries))
     if tries >= 1 and res['visits'] and max(v['try_count'] for v in res['visits']) > tries + 1:
@@ -314,6 +319,23 @@ def run(ctx):
             script = script[:9]       # unlimited tries: the script must end (then 200)
         check_crawl(ctx, {'stream': 'crawl', 'name': name, 'url': 'http://a.example/x', 'replies': script, 'tries': tries,
                           'max_redirects': m, 'login': login})
+    # >= 7 failures on ONE host:port with the real connection pool (6 connections per host): every failed visit has to give
+    # its connection back, whether it failed before the header (reset, garbage) or after it (5xx, body cut short)
+    n_rs = robots_strategies(40)
+    for tries in ((7, 8, 13) if thorough else (7,)):
+        for name, script in (('close-forever', None), ('500-forever', None), ('garbage-forever', [{'status': 0, 'mode': 'garbage'}] * 40),
+                             ('cutbody-forever', [{'status': 200, 'mode': 'cutbody'}] * 40),
+                             ('mixed-failures', [({'status': 0, 'mode': m} if m != 'resp' else rep(503))
+                                                 for m in ('close', 'cutbody', 'garbage', 'resp', 'cutbody', 'close') * 7])):
+            check_crawl(ctx, {'stream': 'crawl', 'name': name, 'url': 'http://a.example/x', 'replies': script or strategies(40)[name],
+                              'tries': tries, 'max_redirects': 1, 'login': None, 'always_fail': True, 'timeout': 8})
+        for rname in ('robots-reset-forever', 'robots-500-forever', 'robots-alt-reset-500'):
+            check_crawl(ctx, {'stream': 'crawl', 'name': 'redirect-then-404', 'url': 'http://a.example/x',
+                              'replies': strategies(40)['redirect-then-404'], 'tries': tries, 'max_redirects': 1, 'login': None,
+                              'robots': n_rs[rname][0], 'robots_disallow': False, 'robots_name': rname, 'always_fail': True, 'timeout': 8})
+        for host_fail, retry in (('refused', '--retry-connrefused'), ('dns', '--retry-dns-error')):
+            check_crawl(ctx, {'stream': 'crawl', 'name': 'host-' + host_fail, 'url': 'http://a.example/x', 'replies': [], 'tries': tries,
+                              'max_redirects': 1, 'login': None, 'host_fail': host_fail, 'retry': retry})
     # persistent database, the process dies while an attempt is in flight, restart
     for tries, kills in (((2, [1]), (3, [1]), (3, [2]), (3, [1, 1]), (3, [0]), (2, [1, 0, 0]), (4, [3]), (4, [1, 1, 1]), (1, [0]), (3, [2, 0]))
                          if thorough else ((3, [2]), (3, [1, 1]), (2, [1]), (3, [0, 1]))):
